@@ -914,6 +914,89 @@ def _wallet_facts(name):
     return f
 
 
+# ------------------------------------------------------------------------------------------------ O3b branch selection (solver-decided)
+
+class _KeyHandle:
+    """stands for an extended public key: records the child indexes asked of it (BIP32 derivation itself is C08's subject)"""
+
+    def __init__(self, tag, trail, log):
+        self.tag, self.trail, self.log = tag, trail, log
+
+    def child(self, index):
+        return _KeyHandle(self.tag, self.trail + [index], self.log)
+
+    def sec(self, compressed=True):
+        self.log.append((self.tag, list(self.trail)))
+        return bytes([2, self.tag]) + bytes(31)     # a distinct 33-byte handle per key record
+
+
+def _branch_path(nrec, change):
+    d = mods()
+    names = "ABD"[:nrec]
+    accts = [SI.var(f"acct{i}", 0, (1 << 31) - 2) for i in range(nrec)]
+    off = SI.var("offset", 0, (1 << 31) - 1)
+    recs = [{"xfp": _K[k][0], "path": _K[k][1], "xpub_parent": _K[k][2], "account_index": 0} for i, k in enumerate(names)]
+    wit = lambda env: {"names": names, "accts": [env[f"acct{i}"] for i in range(nrec)], "offset": env["offset"], "change": change}  # noqa
+    obj = d.P2WSHSortedMulti(1, recs, sort_key_records=False)
+    # the constructor renders the account indexes into the descriptor text (strings are concrete here); get_address reads only
+    # key_records, so the state is completed directly: an arbitrary account index per record
+    for i, kr in enumerate(obj.key_records):
+        kr["account_index"] = accts[i]
+    log = []
+    tags = {kr["xpub_parent"]: i for i, kr in enumerate(obj.key_records)}
+    real_parse = d.HDPublicKey.parse
+    d.HDPublicKey.parse = staticmethod(lambda x, *a, **k: _KeyHandle(tags[x], [], log))
+    real_int = None
+    try:
+        # `assert type(offset) is int`: the shimmed type() answers int for a symbolic int
+        try:
+            obj.get_address(offset=off, is_change=change)
+        except Exception as ex:
+            check(False, f"get_address raised {type(ex).__name__} for a valid (account, offset)", witness=wit)
+            return "raised"
+    finally:
+        d.HDPublicKey.parse = real_parse
+    check(len(log) == nrec and sorted(t for t, _ in log) == list(range(nrec)), "get_address does not derive exactly one leaf key per key record", witness=wit)
+    for tag, trail in log:
+        want = accts[tag] + (1 if change else 0)
+        check((len(trail) == 2) and s_and(trail[0] == want, trail[1] == off),
+              "the leaf key of a record is not xpub/(account_index + is_change)/offset", witness=wit)
+        check(s_not(trail[0] == (accts[tag] + (0 if change else 1))), "receive and change branches of a record coincide", witness=wit)
+    return "ok"
+
+
+def ob_branch():
+    runs = [sym_run(lambda: _branch_path(n, ch), mode="int") for n in (1, 3) for ch in (False, True)]
+    m = merge_runs(runs)
+    m["sample"] = {"key records": "1 and 3, account_index of each symbolic in [0, 2^31-2]", "offset": "symbolic in [0, 2^31)", "branch": "receive / change",
+                   "stub": "HDPublicKey.parse returns a handle that records the child indexes (BIP32 derivation is C08's subject)"}
+    return m
+
+
+def replay_branch(w):
+    nat, hd = loader.native("descriptor"), loader.native("hd")
+    names = w["names"]
+    recs = [{"xfp": _K[k][0], "path": _K[k][1], "xpub_parent": _K[k][2], "account_index": a} for k, a in zip(names, w["accts"])]
+    obj = nat.P2WSHSortedMulti(1, recs, sort_key_records=False)
+    out = []
+    for off in sorted({w["offset"], 0, 1}):
+        addr = {}
+        for change in (False, True):
+            secs = [hd.HDPublicKey.parse(r["xpub_parent"]).child(r["account_index"] + (1 if change else 0)).child(off).sec() for r in recs]
+            want = ref_address(1, secs, obj.network)
+            try:
+                got = obj.get_address(offset=off, is_change=change)
+            except Exception as ex:
+                return {"violated": True, "observed": f"get_address(offset={off}, is_change={change}) raised {ex!r} (accounts {w['accts']})"}
+            addr[change] = got
+            if got != want:
+                return {"violated": True, "observed": f"accounts {w['accts']}: address (change={change}, offset={off}) {got} != P2WSH over xpub/(account+{int(change)})/{off}: {want}"}
+        if addr[False] == addr[True]:
+            return {"violated": True, "observed": f"accounts {w['accts']}: receive and change address coincide at offset {off}"}
+        out.append(off)
+    return {"violated": False, "observed": f"addresses at offsets {out} are the hand-built ones"}
+
+
 def ob_wallet(name):
     return conc_run(_wallet_facts(name), f"wallet {name}: round trip, addresses, supply order (concrete, NOT solver-decided)",
                     replay="wallet", witness={"wallet": name})
@@ -1015,7 +1098,8 @@ def obligations(tier):
                           budget_s=1500))
         obs.append(Ob("O2-substitution", ob_substitution, {"wname": name, "where": "checksum", "positions": tuple(range(8))},
                       replay="substitution"))
-    for name in ("1of1", "1of2", "2of3", "slip132", "2of3-same-xfp") if q else ("1of1", "1of2", "2of3", "1of4", "slip132", "2of3-acct7", "2of3-same-xfp"):
+    obs.append(Ob("O3-branch-selection", ob_branch, replay="branch"))
+    for name in ("1of1", "1of2", "2of3", "slip132", "2of3-acct7", "2of3-same-xfp") if q else ("1of1", "1of2", "2of3", "1of4", "slip132", "2of3-acct7", "2of3-same-xfp"):
         obs.append(Ob("O3-wallet", ob_wallet, {"name": name}))
     for name in (("1of1",) if q else ("1of1", "1of2")):
         W = wallet(name)
